@@ -15,6 +15,7 @@ func init() {
 	vrt.Register("zzverif.VC05Resb", VC05Resb)
 	vrt.Register("zzverif.VC05Align", VC05Align)
 	vrt.Register("zzverif.VC05Silent", VC05Silent)
+	vrt.Register("zzverif.VC05Label", VC05Label)
 }
 
 var c05Boundary = []int64{0, 1, -1, 127, 128, 255, 256, -128, -129, 32767, 32768, 65535, 65536, -32768, -32769, 2147483647, 2147483648, 4294967295, -2147483648}
@@ -70,7 +71,7 @@ func VC05Data() {
 // VC05Str: string operands byte for byte, separators inside strings stay
 // data; three of the bytes are solver variables.
 func VC05Str() {
-	layout := vrt.ChooseStr("layout", []string{"str", "num,str", "str,num", "str,str", "num,str,num"})
+	layout := vrt.ChooseStr("layout", []string{"str", "num,str", "str,num", "str,str", "num,str,num", "utf8-2", "utf8-3"})
 	// printable ASCII except '"' and '\\', in three interval classes
 	cls := [][2]byte{{0x20, 0x21}, {0x23, 0x5b}, {0x5d, 0x7e}}
 	mk := func(name string) byte {
@@ -98,6 +99,17 @@ func VC05Str() {
 	case "num,str,num":
 		text = "1," + q(s2) + ",10"
 		want = append(append(append(want, 1), s2...), 10)
+	case "utf8-2":
+		// a two-byte UTF-8 character with both bytes solver variables (what
+		// the command line hands over for a non-ASCII string): DB emits the
+		// bytes of the text, one per byte
+		u := []byte{'a', vrt.Byte("u0", 0xc2, 0xdf), vrt.Byte("u1", 0x80, 0xbf), 'z'}
+		text = q(u) + ",0"
+		want = append(append(want, u...), 0)
+	case "utf8-3":
+		u := []byte{0xe3, vrt.Byte("u1", 0x80, 0xbf), vrt.Byte("u2", 0x80, 0xbf), '!'}
+		text = "1," + q(u)
+		want = append(append(want, 1), u...)
 	}
 	src := "DB " + text + "\nlbl:\nDW lbl\n"
 	vrt.Note("src", src)
@@ -220,4 +232,43 @@ func VC05Silent() {
 	vrt.Reach("c05e.accepted")
 	ok := len(out) == 4 && out[0] == 0x11 && out[1] == 0x22 && out[2] == 0x01 && out[3] == 0x7c
 	vrt.Assert(ok, "c05.silent")
+}
+
+
+// VC05Label: label operands of DW/DD with the origin a solver variable over
+// 0..2^24: each element is the low 16/32 bits of the label's address, also
+// when the address does not fit the element.
+func VC05Label() {
+	dir := vrt.ChooseStr("dir", []string{"DW", "DD"})
+	width := map[string]int{"DW": 2, "DD": 4}[dir]
+	layout := vrt.ChooseStr("layout", []string{"lbl", "7,lbl,9", "lbl,lbl2"})
+	org := vrt.IntRange("org", 0, 1<<24)
+	var sb subs
+	src := "ORG " + lit(org, &sb) + "\nDB 1,2,3,4\nlbl:\nDB 5\nlbl2:\n" + dir + " " + layout + "\n"
+	vrt.Note("src", src)
+	out, oc := AssembleT(src, sb.list, "s")
+	vrt.Note("outcome", oc)
+	vrt.NoteBytes("bytes", out)
+	if oc != "ok" || diagnosed() {
+		vrt.Reach("c05l.rejected")
+		return
+	}
+	vrt.Reach("c05l.accepted")
+	var want []int64
+	switch layout {
+	case "lbl":
+		want = []int64{org + 4}
+	case "7,lbl,9":
+		want = []int64{7, org + 4, 9}
+	case "lbl,lbl2":
+		want = []int64{org + 4, org + 5}
+	}
+	var acc diffAcc
+	acc.flag(len(out) != 5+len(want)*width)
+	if len(out) == 5+len(want)*width {
+		for i, w := range want {
+			acc.eqLE(out[5+i*width:5+(i+1)*width], w)
+		}
+	}
+	vrt.Assert(acc.d == 0, "c05.label")
 }
